@@ -1271,3 +1271,31 @@ package redis
 //@   requires f != nil
 //@   modifies all
 //@   callpre Free @the-counter-of-this-filter-is-released arg0 == f.counter && f.counter != nil
+
+// ---- C02/C01: completing a request: the reply is stored first, every hook runs once with the request itself,
+// last registered first, and the latch is closed last. What the hooks do to other memory is not followed
+// (the clause about argument arrays is assumed, as it was when this contract was an external one).
+
+//@ func (*simpleRequest).SetResponse
+//@   prop C02 C01
+//@   consumes r
+//@   requires @a-reply-is-given resp != nil
+//@   modifies all
+//@   assume r.done != nil && !closed(r.done)
+//@   callpre dynamic @every-hook-runs-with-the-request-itself-after-the-reply-is-stored arg0 == r && r.resp == resp
+//@   ensures forall x *simpleRequest :: x != nil && x.body != nil ==> x.body == old(x.body) && len(x.body.Array) == old(len(x.body.Array))
+//@   assume @ret forall x *simpleRequest :: x != nil && x.body != nil ==> x.body == old(x.body) && len(x.body.Array) == old(len(x.body.Array))
+//@   ensures @the-latch-is-closed-last closed(r.done)
+//@   loop 0 assume r.hooks == old(r.hooks) && len(r.hooks) == old(len(r.hooks)) && r.resp == resp && r.done == old(r.done) && (forall k int :: 0 <= k && k < len(r.hooks) ==> r.hooks[k] != nil)
+
+//@ func (*rawRequest).SetResponse
+//@   prop C02 C01
+//@   consumes r
+//@   requires @a-reply-is-given v != nil
+//@   modifies all
+//@   assume r.done != nil && !closed(r.done)
+//@   callpre dynamic @every-hook-runs-with-the-request-itself-after-the-reply-is-stored arg0 == r && r.resp == v
+//@   ensures forall x *simpleRequest :: x != nil && x.body != nil ==> x.body == old(x.body) && len(x.body.Array) == old(len(x.body.Array))
+//@   assume @ret forall x *simpleRequest :: x != nil && x.body != nil ==> x.body == old(x.body) && len(x.body.Array) == old(len(x.body.Array))
+//@   ensures @the-latch-is-closed-last closed(r.done)
+//@   loop 0 assume r.hooks == old(r.hooks) && len(r.hooks) == old(len(r.hooks)) && r.resp == v && r.done == old(r.done) && (forall k int :: 0 <= k && k < len(r.hooks) ==> r.hooks[k] != nil)
